@@ -433,6 +433,8 @@ class Interp:
             a = int(a)
         if isinstance(b, bool):
             b = int(b)
+        if getattr(self, 'exact_floats', False) and (isinstance(a, float) or isinstance(b, float)) and isinstance(a, (int, float, Poly)) and isinstance(b, (int, float, Poly)):
+            a, b = Poly.of(a), Poly.of(b)         # float constants are exact rationals
         if isinstance(a, int) and isinstance(b, int):
             f = {'+': lambda x, y: x + y, '-': lambda x, y: x - y, '*': lambda x, y: x * y, '<<': lambda x, y: x << y,
                  '>>': lambda x, y: x >> y, '&': lambda x, y: x & y, '|': lambda x, y: x | y, '^': lambda x, y: x ^ y,
@@ -464,6 +466,10 @@ class Interp:
                     return Poly.of(a) - b
                 if op == '*':
                     return Poly.of(a) * b
+                if op == '/' and isinstance(b, Poly) and b.const() is not None:
+                    b = b.const()
+                if op == '/' and not isinstance(b, Poly) and b == 0:
+                    raise Violation('a float is divided by zero (the quotient is infinite or NaN)', fn.loc(e))
                 if op == '/' and not isinstance(b, Poly) and b != 0:
                     from fractions import Fraction
                     return Poly.of(a) * (Fraction(1) / Fraction(b))
@@ -718,12 +724,19 @@ class Interp:
                             s -= (1 << tt[0])            # two's-complement reinterpretation (size_t difference stored in a ptrdiff_t)
                 val[i] = s
             elif ck in ('IntegralToFloating',):
+                if getattr(self, 'exact_floats', False) and isinstance(s, int):
+                    s = Poly.of(int(s))           # a float from here on: `/` is float division, not integer division
                 val[i] = s if isinstance(s, (int, float, Poly)) else Op()
             elif ck in ('FloatingToIntegral', 'FloatingToBoolean'):
                 if isinstance(s, (Co, Df)):
                     self.broken(fn, e, 'a coordinate is converted to an integer')
                 if isinstance(s, Poly):
-                    self.broken(fn, e, 'a symbolic float is converted to an integer: not a polynomial')
+                    if s.const() is None:
+                        self.broken(fn, e, 'a symbolic float is converted to an integer: not a polynomial')
+                    import math as _m
+                    s = int(_m.trunc(s.const())) if ck == 'FloatingToIntegral' else (s.const() != 0)          # an exact constant truncates like the number it is
+                    if ck == 'FloatingToIntegral' and abs(s) >= 2 ** 31:
+                        raise Violation('a float of magnitude %.3g is converted to int: undefined behaviour' % float(s), fn.loc(e))
                 val[i] = s if isinstance(s, (int, float)) else Op()
             elif ck == 'PointerToBoolean':
                 val[i] = (s.rec is not None) if isinstance(s, Ptr) else True      # It, PtrLV: non-null
@@ -1195,6 +1208,20 @@ class Interp:
                 raise Violation('insert position %d outside [0, %d]' % (it.idx, len(obj.items)), fn.loc(e))
             self.fresh(it, fn, e, 'insert')
             obj.items.insert(it.idx, copy_rec(v) if isinstance(v, Rec) else v)
+            obj.gen += 1
+            return It(obj, it.idx)
+        if short == 'insert' and len(a) == 3:
+            it, n_, v = a
+            if not isinstance(it, It) or it.vec is not obj:
+                self.broken(fn, e, 'insert position is not an iterator of this vector')
+            if not isinstance(n_, int) or isinstance(n_, bool):
+                self.broken(fn, e, 'insert count is a %s' % type(n_).__name__)
+            if n_ < 0 or n_ > getattr(self, 'max_fill', 100000):
+                raise Violation('insert(pos, %d, v): %d copies are asked for' % (n_, n_), fn.loc(e))
+            if not (0 <= it.idx <= len(obj.items)):
+                raise Violation('insert position %d outside [0, %d]' % (it.idx, len(obj.items)), fn.loc(e))
+            self.fresh(it, fn, e, 'insert')
+            obj.items[it.idx:it.idx] = [copy_rec(v) if isinstance(v, Rec) else v for _ in range(n_)]
             obj.gen += 1
             return It(obj, it.idx)
         if short == 'erase' and len(a) == 1:
